@@ -71,6 +71,12 @@ pub enum Case {
         /// is only logged
         #[serde(default)]
         carve_out: bool,
+        /// wire execution: the signer is built by HandlerBuilder (protocol version 6), the channel
+        /// is opened with NewChannel / SetupChannel, commitments are requested with
+        /// SignRemoteCommitmentTx2 and revocations delivered with ValidateRevocation, every
+        /// message serialised and parsed back; a restart rebuilds the handlers from the store
+        #[serde(default)]
+        wire: bool,
     },
     /// Store: steps = (kind, param) interpreted by `run_store`
     Store { steps: Vec<StoreOp> },
@@ -182,7 +188,9 @@ struct SignRec {
 pub struct C03;
 
 impl C03 {
-    fn run_chan(&self, anchors: bool, outbound: bool, onchain: bool, carve_out: bool, ops: &[Op], st: &mut CaseStats, ctx: &Ctx) -> Result<(), Violation> {
+    fn run_chan(&self, anchors: bool, outbound: bool, onchain: bool, carve_out: bool, wire: bool, ops: &[Op], st: &mut CaseStats, ctx: &Ctx) -> Result<(), Violation> {
+        use crate::props::proto::{Negotiation, ProtoWorld, To};
+        use vls_protocol::msgs::{self, Message};
         let mut cfg = WorldCfg::default_testnet();
         if carve_out {
             use lightning_signer::policy::filter::{FilterResult, FilterRule, PolicyFilter};
@@ -197,12 +205,25 @@ impl C03 {
             cfg.policy.filter.merge(f);
             st.class("carve_out_filter");
         }
-        let mut w = if onchain { World::new_onchain(cfg) } else { World::new(cfg) };
-        st.class(if onchain { "onchain-factory" } else { "simple-factory" });
+        let wire = wire && !onchain;
+        let mut pw: Option<ProtoWorld> = if wire { Some(ProtoWorld::new(cfg.clone(), 6, Negotiation::SignerCap)) } else { None };
+        let mut w = match pw.as_ref() {
+            Some(pw) => World::from_proto(pw),
+            None => if onchain { World::new_onchain(cfg) } else { World::new(cfg) },
+        };
+        st.class(if wire { "wire-execution" } else if onchain { "onchain-factory" } else { "simple-factory" });
         let mut spec = ChanSpec::basic(1);
         spec.anchors = anchors;
         spec.outbound = outbound;
-        let ci = if onchain { crate::chainpool::open_confirmed(&mut w, &spec).0 } else { w.open(&spec) };
+        let ci = if let Some(pw) = pw.as_mut() {
+            let Out::Ok(pci) = pw.new_stub(&spec) else { return Ok(()) };
+            if !pw.setup_chan(pci).is_ok() {
+                st.class("wire:setup-refused");
+                return Ok(());
+            }
+            w.chans.push(pw.chans[pci].clone());
+            w.chans.len() - 1
+        } else if onchain { crate::chainpool::open_confirmed(&mut w, &spec).0 } else { w.open(&spec) };
         let payee = PublicKey::from_secret_key(&w.secp, &SecretKey::from_slice(&[5u8; 32]).unwrap());
         for h in 0u8..4 {
             w.node.add_keysend(payee, phash(h), 2_000_000_000).expect("keysend");
@@ -298,7 +319,37 @@ impl C03 {
                     // the holder's received HTLCs
                     let (cp_offered, cp_received) = (to_info2(&content.received), to_info2(&content.offered));
                     let reftx = chan.ref_cp_commitment(&w.secp, n, &point, &content);
-                    let res: Out<(Signature, Option<Vec<Signature>>)> = if *phase1 {
+                    let res: Out<(Signature, Option<Vec<Signature>>)> = if let Some(pw) = pw.as_mut() {
+                        let mut wire_htlcs = vec![];
+                        for (list, side) in [(&content.offered, vls_protocol::model::Htlc::LOCAL), (&content.received, vls_protocol::model::Htlc::REMOTE)] {
+                            for h in list.iter() {
+                                wire_htlcs.push(vls_protocol::model::Htlc { side, amount: h.sat * 1000, payment_hash: vls_protocol::model::Sha256(phash(h.h).0), ctlv_expiry: h.cltv });
+                            }
+                        }
+                        let msg = Message::SignRemoteCommitmentTx2(msgs::SignRemoteCommitmentTx2 {
+                            remote_per_commitment_point: vls_protocol::model::PubKey(point.serialize()),
+                            commitment_number: n,
+                            feerate: content.feerate,
+                            to_local_value_sat: content.to_holder,
+                            to_remote_value_sat: content.to_cp,
+                            htlcs: vls_protocol::serde_bolt::Array(wire_htlcs),
+                        });
+                        match pw.request(To::Chan(0), msg) {
+                            Out::Ok(rep) => match rep.as_any().downcast_ref::<msgs::SignCommitmentTxWithHtlcsReply>() {
+                                Some(r) => {
+                                    let sig = Signature::from_compact(&r.signature.signature.0);
+                                    let hs: Result<Vec<Signature>, _> = r.htlc_signatures.0.iter().map(|s| Signature::from_compact(&s.signature.0)).collect();
+                                    match (sig, hs) {
+                                        (Ok(s), Ok(h)) => Out::Ok((s, Some(h))),
+                                        _ => Out::Err(lightning_signer::util::status::Status::internal("malformed signature in reply")),
+                                    }
+                                }
+                                None => Out::Err(lightning_signer::util::status::Status::internal("unexpected reply type")),
+                            },
+                            Out::Err(e) => Out::Err(e),
+                            Out::Panic(p) => Out::Panic(p),
+                        }
+                    } else if *phase1 {
                         let tx = reftx.trust().built_transaction().transaction.clone();
                         let ws = witscripts(chan, &w.secp, &reftx, false);
                         w.with_chan(ci, |ch| {
@@ -312,6 +363,9 @@ impl C03 {
                         })
                     };
                     st.class(format!("sign:{}", res.tag()));
+                    if wire {
+                        st.class(format!("wire:sign:{}", res.tag()));
+                    }
                     if std::env::var("VERIF_ERRCLASS").is_ok() && res.is_err() {
                         st.class(format!("E:sign:{}", short_err(&res.err_msg())));
                     }
@@ -380,8 +434,20 @@ impl C03 {
                         SecSel::Random(b) => Sha256::hash(&[*b, 0x33]).to_byte_array(),
                     };
                     let sk = SecretKey::from_slice(&s).unwrap();
-                    let res = w.with_chan(ci, |ch| ch.validate_counterparty_revocation(k, &sk));
+                    let res: Out<()> = if let Some(pw) = pw.as_mut() {
+                        let msg = Message::ValidateRevocation(msgs::ValidateRevocation { commitment_number: k, commitment_secret: vls_protocol::model::DisclosedSecret(s) });
+                        match pw.request(To::Chan(0), msg) {
+                            Out::Ok(_) => Out::Ok(()),
+                            Out::Err(e) => Out::Err(e),
+                            Out::Panic(p) => Out::Panic(p),
+                        }
+                    } else {
+                        w.with_chan(ci, |ch| ch.validate_counterparty_revocation(k, &sk))
+                    };
                     st.class(format!("revoke:{}", res.tag()));
+                    if wire {
+                        st.class(format!("wire:revoke:{}", res.tag()));
+                    }
                     if std::env::var("VERIF_ERRCLASS").is_ok() && res.is_err() {
                         st.class(format!("E:revoke:{}", short_err(&res.err_msg())));
                     }
@@ -429,7 +495,15 @@ impl C03 {
                     }
                 }
                 Op::Restart => {
-                    let r = w.restart();
+                    let r = if let Some(pw) = pw.as_mut() {
+                        let r = pw.restart();
+                        if r.is_ok() {
+                            w.rebind_proto(pw);
+                        }
+                        r
+                    } else {
+                        w.restart()
+                    };
                     st.class(format!("restart:{}", r.tag()));
                     shape.push((2, 0, 0, r.tag()));
                     if !r.is_ok() {
@@ -622,15 +696,15 @@ impl Prop for C03 {
         let n = tier.pick(30usize, 80usize);
         let m = tier.pick(40usize, 150usize);
         prop_oneof![
-            3 => (any::<bool>(), any::<bool>(), proptest::collection::vec(op_strat(), 1..n), prop::bool::weighted(0.4), prop::bool::weighted(0.15))
-                .prop_map(|(anchors, outbound, ops, onchain, carve_out)| Case::Chan { anchors, outbound, ops, onchain, carve_out }),
+            3 => (any::<bool>(), any::<bool>(), proptest::collection::vec(op_strat(), 1..n), prop::bool::weighted(0.4), prop::bool::weighted(0.15), prop::bool::weighted(0.4))
+                .prop_map(|(anchors, outbound, ops, onchain, carve_out, wire)| Case::Chan { anchors, outbound, ops, onchain, carve_out, wire: wire && !onchain }),
             2 => proptest::collection::vec(store_op_strat(), 1..m).prop_map(|steps| Case::Store { steps }),
         ]
         .boxed()
     }
     fn run(&self, case: &Case, st: &mut CaseStats, ctx: &Ctx) -> Result<(), Violation> {
         match case {
-            Case::Chan { anchors, outbound, ops, onchain, carve_out } => self.run_chan(*anchors, *outbound, *onchain, *carve_out, ops, st, ctx),
+            Case::Chan { anchors, outbound, ops, onchain, carve_out, wire } => self.run_chan(*anchors, *outbound, *onchain, *carve_out, *wire, ops, st, ctx),
             Case::Store { steps } => self.run_store(steps, st, ctx),
         }
     }
